@@ -1,5 +1,230 @@
 package props
 
-import "github.com/taurusgroup/multi-party-sig/verif/fw"
+import (
+	"fmt"
 
-func runC05Raw(c *fw.Ctx) {}
+	"github.com/taurusgroup/multi-party-sig/internal/round"
+	"github.com/taurusgroup/multi-party-sig/pkg/ecdsa"
+	"github.com/taurusgroup/multi-party-sig/pkg/protocol"
+	"github.com/taurusgroup/multi-party-sig/protocols/cmp"
+	"github.com/taurusgroup/multi-party-sig/protocols/doerner"
+	"github.com/taurusgroup/multi-party-sig/protocols/frost"
+	"github.com/taurusgroup/multi-party-sig/verif/fw"
+	"github.com/taurusgroup/multi-party-sig/verif/scen"
+	"github.com/taurusgroup/multi-party-sig/verif/sim"
+)
+
+var cborShapes = [][]byte{{}, {0xf6}, {0xa0}, {0x80}, {0x40}, {0x60}, {0x00}, {0x20}, {0xf5}, {0xbf, 0xff}, {0x9f, 0xff}, {0x5f, 0xff},
+	{0xa1, 0x00, 0x00}, {0x5a, 0xff, 0xff, 0xff, 0xff}, {0x9b, 0xff, 0xff, 0xff, 0xff, 0xff, 0xff, 0xff, 0xff}, {0xc0, 0x00}, {0xfb, 0, 0, 0, 0, 0, 0, 0, 0}}
+
+// rawBytes derives a byte string from a genuine encoding: random, truncated, spliced, extended.
+func rawBytes(c *fw.Ctx, genuine []byte) ([]byte, string) {
+	switch c.S.Draw(6, "raw-kind") {
+	case 0:
+		n := c.S.Draw(64, "len")
+		return c.S.Bytes(n, "rnd"), "random"
+	case 1:
+		if len(genuine) == 0 {
+			return nil, "nil"
+		}
+		return append([]byte{}, genuine[:c.S.Draw(len(genuine), "cut")]...), "truncated-genuine"
+	case 2:
+		if len(genuine) < 2 {
+			return []byte{0xff}, "one-byte"
+		}
+		out := append([]byte{}, genuine...)
+		pos := c.S.Draw(len(out), "pos")
+		for i := 0; i < 1+c.S.Draw(6, "n") && pos+i < len(out); i++ {
+			out[pos+i] = byte(c.S.Draw(256, "b"))
+		}
+		return out, "spliced-genuine"
+	case 3:
+		return append(append([]byte{}, genuine...), c.S.Bytes(1+c.S.Draw(8, "n"), "tail")...), "genuine-plus-tail"
+	case 4:
+		// small hand-picked CBOR shapes
+		return cborShapes[c.S.Draw(len(cborShapes), "shape")], "cbor-shape"
+	default:
+		return make([]byte, c.S.Draw(40, "zeros")), "zeros"
+	}
+}
+
+// runC05Raw: raw byte strings and header malformations presented to a handler in a drawn state,
+// and arbitrary bytes presented to the restore codecs.
+func runC05Raw(c *fw.Ctx) {
+	if c.S.Draw(4, "raw-target") == 3 {
+		runC05RawRestore(c)
+		return
+	}
+	sc := scen.DrawScenario(c, scen.ScenarioOpts{CMPPerMille: cmpRate(c, 4), AllowXor: true, MaxN: 4})
+	s := scen.NewSession(c, "run", sc.Mk(), nil)
+	s.Net.Policy = sim.DrawPolicy(s.Net)
+	// run a prefix of the session
+	prefix := c.S.Draw(3*len(sc.Parts)*len(sc.Parts)+1, "prefix-steps")
+	s.Net.MaxSteps = prefix
+	s.Net.Run()
+	s.Net.MaxSteps = 20000
+	victim := s.Nodes[sc.Parts[c.S.Draw(len(sc.Parts), "victim")]]
+	if victim.H == nil || victim.Dead {
+		return
+	}
+	// a genuine message to start from (any message in flight or already sent to the victim)
+	var genuine *protocol.Message
+	for _, e := range s.Net.Pool {
+		if e.Node == victim {
+			genuine = e.Decode()
+			break
+		}
+	}
+	if genuine == nil {
+		for _, id := range s.Order {
+			for _, m := range s.Nodes[id].Sent {
+				if m.IsFor(victim.ID) {
+					genuine = m
+				}
+			}
+		}
+	}
+	if genuine == nil {
+		return
+	}
+	gb, _ := genuine.MarshalBinary()
+	final := round.Number(scen.FinalRound(victim.H))
+	k := 1 + c.S.Draw(4, "count")
+	kinds := ""
+	for i := 0; i < k && !victim.Dead; i++ {
+		var m *protocol.Message
+		what := ""
+		switch c.S.Draw(3, "raw-mode") {
+		case 0: // whole wire message from raw bytes
+			b, kind := rawBytes(c, gb)
+			what = "wire:" + kind
+			mm := &protocol.Message{}
+			var uerr error
+			func() {
+				defer func() {
+					if p := recover(); p != nil {
+						c.Violate("panic-in-Message.UnmarshalBinary", "Message.UnmarshalBinary panicked on %s bytes %x: %v", kind, b, p)
+					}
+				}()
+				uerr = mm.UnmarshalBinary(b)
+			}()
+			if uerr != nil {
+				c.Probe("wire_bytes_refused_by_codec", 1)
+				kinds += what + "(refused) "
+				continue
+			}
+			m = mm
+		case 1: // genuine headers, raw payload
+			b, kind := rawBytes(c, genuine.Data)
+			what = "payload:" + kind
+			mm := *genuine
+			mm.Data = b
+			m = &mm
+		default: // header malformation
+			mm := *genuine
+			switch c.S.Draw(14, "hdr") {
+			case 0:
+				mm.From, what = "", "hdr:from-empty"
+			case 1:
+				mm.From, what = "nobody-knows-me", "hdr:from-unknown"
+			case 2:
+				mm.From, what = victim.ID, "hdr:from-self"
+			case 3:
+				mm.To, what = "somebody-else", "hdr:to-other"
+			case 4:
+				mm.To, what = "", "hdr:to-empty"
+			case 5:
+				mm.RoundNumber, what = 0, "hdr:round-0"
+			case 6:
+				mm.RoundNumber, what = final+1, "hdr:round-final+1"
+			case 7:
+				mm.RoundNumber, what = 65535, "hdr:round-65535"
+			case 8:
+				mm.RoundNumber, what = 1, "hdr:round-1"
+			case 9:
+				mm.Protocol, what = "no/such-protocol", "hdr:protocol"
+			case 10:
+				mm.SSID, what = nil, "hdr:ssid-nil"
+			case 11:
+				mm.SSID, what = mm.SSID[:len(mm.SSID)/2], "hdr:ssid-short"
+			case 12:
+				mm.Data, what = nil, "hdr:data-nil"
+			default:
+				mm.BroadcastVerification, what = c.S.Bytes(5, "bv"), "hdr:bv-garbage"
+			}
+			m = &mm
+		}
+		kinds += what + " "
+		c.Fault("malformed_delivery:"+what, 1)
+		msgs := s.Net.Call(victim, func() {
+			_ = victim.H.CanAccept(m)
+			victim.H.Accept(m)
+			_ = victim.H.CanAccept(nil)
+			victim.H.Accept(nil)
+		})
+		s.Net.Emit(victim, msgs)
+	}
+	c.Res.NonTrivial = true
+	c.Res.Desc = fmt.Sprintf("raw %s victim=%q after %d steps: %s", sc.Name, victim.ID, prefix, kinds)
+	c.Res.DistinctID = fmt.Sprintf("raw/%s/%s/%s", sc.Proto, sc.Kind, kinds)
+	// let the session continue
+	s.Net.Run()
+	c.Absorb(s.Net)
+	for _, id := range s.Order {
+		nd := s.Nodes[id]
+		if nd.Panic != "" {
+			c.Violate("panic@"+nd.PanicFn, "party %q panicked after malformed deliveries (%s) to %q\n%s", id, kinds, victim.ID, nd.Panic)
+		}
+		if nd.Hang {
+			c.Violate("hang/raw/"+sc.Proto.String()+"/"+sc.Kind.String(), "party %q hung after malformed deliveries (%s)", id, kinds)
+		}
+	}
+	b := &Byz{C: c, Sc: sc, Sess: s, Honest: sc.Parts}
+	b.CheckClean()
+	c.Res.Sample = map[string]interface{}{"desc": c.Res.Desc}
+}
+
+// runC05RawRestore: arbitrary bytes into every restore codec.
+func runC05RawRestore(c *fw.Ctx) {
+	likes := []interface{}{&cmp.Config{}, &frost.Config{}, &frost.TaprootConfig{}, &doerner.ConfigReceiver{}, &doerner.ConfigSender{}, &ecdsa.PreSignature{}, &ecdsa.Signature{}}
+	// systematic core (seed-independent): every small CBOR shape into every codec
+	for _, l := range likes {
+		for _, sh := range cborShapes {
+			_, err := scen.Restore(l, sh)
+			if pe, ok := err.(*scen.PanicError); ok {
+				c.Violate(fmt.Sprintf("panic-in-restore@%s/%T", sim.LibFrame(pe.Stack), l), "restoring %T from the bytes %x panicked: %s\n%s", l, sh, pe.Value, pe.Stack)
+			}
+			c.Probe("restore_shape_grid_cells", 1)
+		}
+	}
+	if len(c.Res.Violations) > 0 {
+		c.Res.NonTrivial = true
+		c.Res.Desc = "restore grid (types x small CBOR shapes)"
+		return
+	}
+	like := likes[c.S.Draw(len(likes), "type")]
+	// a genuine encoding to derive from, when cheap
+	var genuine []byte
+	switch like.(type) {
+	case *frost.Config, *frost.TaprootConfig, *doerner.ConfigReceiver, *doerner.ConfigSender:
+		p := map[string]scen.Proto{"*keygen.Config": scen.FROST, "*keygen.TaprootConfig": scen.FROSTTaproot, "*keygen.ConfigReceiver": scen.Doerner, "*keygen.ConfigSender": scen.Doerner}[fmt.Sprintf("%T", like)]
+		ids := scen.DrawIDs(c.S, 2)
+		m := scen.PrepMaterial(c, p, ids, 1, "prep")
+		pick := ids[0]
+		if _, isS := like.(*doerner.ConfigSender); isS {
+			pick = ids[1]
+		}
+		genuine, _ = scen.Persist(m.Cfg[pick])
+	}
+	b, kind := rawBytes(c, genuine)
+	v, err := scen.Restore(like, b)
+	c.Res.NonTrivial = true
+	c.Res.Desc = fmt.Sprintf("restore %T from %s bytes (%d)", like, kind, len(b))
+	c.Res.DistinctID = fmt.Sprintf("restore/%T/%s/%v", like, kind, err == nil)
+	c.Fault("arbitrary_bytes_restored:"+kind, 1)
+	if pe, ok := err.(*scen.PanicError); ok {
+		c.Violate(fmt.Sprintf("panic-in-restore@%s/%T", sim.LibFrame(pe.Stack), like), "restoring %T from %s bytes %x panicked: %s\n%s", like, kind, b, pe.Value, pe.Stack)
+	}
+	_ = v
+	c.Res.Sample = map[string]interface{}{"desc": c.Res.Desc, "error": fmt.Sprint(err)}
+}
